@@ -47,9 +47,9 @@ def layout(tokens):
     return lines, findings, comments
 
 
-def expected(path, lines, findings, comments, line_offset=0):
+def expected(path, lines, findings, comments, line_offset=0, active=None):
     """set of (ruleId, line) the scan must report for this file"""
-    active = APPLIES[path]
+    active = APPLIES[path] if active is None else active
     fs = [(l, r) for (l, r) in findings if r in active]
     def governs(c, l):
         return (c[1] and c[0] + 1 == l) or (not c[1] and c[0] == l)
@@ -135,7 +135,63 @@ def main(argv):
                        "suppressed-finding-reported" if extra else "unsuppressed-finding-not-reported"
                 where = "no-rule-applies-to-the-file" if not APPLIES[path] else "html-host-document" if path.endswith(".html") and ("unused-suppression", 0) in missing else "some-rule-excluded" if len(APPLIES[path]) == 1 else "all-rules-apply"
                 rep.violation(f"cli:{kind}:{where}", {"tokens": [list(t) for t in seq], "file": path, "lines": layout(seq)[0], "missing": missing, "extra": extra})
+    # ---- option family (round j): scans that run only part of the project's rules, with the
+    # unused-suppression rule switched on explicitly by a severity option. The user asked for the
+    # report, so the statement applies as it stands: findings of the rules that run which no comment
+    # silences, plus every comment that silenced nothing.
+    r1_inline = json.dumps({k: v for k, v in RULES["r1"].items() if k != "ignores"})
+    OPTS = [
+        ("filter+warning", ["--filter", "^r1$", "--warning=unused-suppression"], ["r1"]),
+        ("rule-file+error", ["-r", "rules/r2.yml", "--error=unused-suppression"], ["r2"]),
+        ("inline-rules+hint", ["--inline-rules", r1_inline, "--hint=unused-suppression"], ["r1"]),
+        ("off-one+info", ["--off=r2", "--info=unused-suppression"], ["r1"]),
+        ("all-rules+error", ["--error=unused-suppression"], ["r1", "r2"]),
+    ]
+    oseqs = [seq for n in range(1, 3) for seq in itertools.product(TOKENS, repeat=n)] if not args["replay"] else seqs
+    ostats = {"scans": 0, "documents": 0, "expected_unused": 0}
+    oproj = os.path.join(root, "opts")
+    otree = {"sgconfig.yml": "ruleDirs: [rules]\n", "rules/r1.yml": json.dumps(RULES["r1"]), "rules/r2.yml": json.dumps(RULES["r2"])}
+    for li, seq in enumerate(oseqs):
+        otree[f"src/l{li}/a.js"] = "\n".join(layout(seq)[0]) + "\n"
+    vlib.write_tree(oproj, otree)
+
+    def owork(oi):
+        name, opts, active = OPTS[oi]
+        return (oi,) + tuple(vlib.run_cli(binary, ["scan", "--json=stream"] + opts + (["src"] if "-r" in opts or "--inline-rules" in opts else []), oproj, timeout=120))
+
+    for oi, code, out, err in vlib.pmap(owork, list(range(len(OPTS))), workers=len(OPTS)):
+        name, opts, active = OPTS[oi]
+        ostats["scans"] += 1
+        crash = vlib.is_crash(code, err)
+        if crash:
+            rep.violation(f"cli:scan:crash:{crash}:options={name}", {"options": opts, "stderr": err.decode(errors="replace")[-300:]})
+            continue
+        got = {}
+        try:
+            for line in out.decode().splitlines():
+                if line.strip():
+                    r = json.loads(line)
+                    got.setdefault(r["file"].lstrip("./"), set()).add((r["ruleId"], r["range"]["start"]["line"]))
+        except (ValueError, KeyError) as e:
+            rep.violation(f"cli:scan:unparseable-output:options={name}", {"options": opts, "error": str(e), "stderr": err.decode(errors="replace")[-300:]})
+            continue
+        for li, seq in enumerate(oseqs):
+            lines, findings, comments = layout(seq)
+            exp = expected("src/a.js", lines, findings, comments, active=active)
+            ostats["documents"] += 1
+            ostats["expected_unused"] += sum(1 for e in exp if e[0] == "unused-suppression")
+            g = got.get(f"src/l{li}/a.js", set())
+            if g != exp:
+                missing, extra = sorted(exp - g), sorted(g - exp)
+                kind = "unused-suppression-not-reported" if any(m[0] == "unused-suppression" for m in missing) else \
+                       "comment-reported-unused-though-it-silences" if any(x[0] == "unused-suppression" for x in extra) else \
+                       "suppressed-finding-reported" if extra else "unsuppressed-finding-not-reported"
+                rep.violation(f"cli:{kind}:options={name}", {"tokens": [list(t) for t in seq], "options": opts, "rules_that_run": active, "lines": lines, "missing": missing, "extra": extra})
+    stats["documents"] += ostats["documents"]
+    stats["expected_unused"] += ostats["expected_unused"]
     coverage = {
+        "cli_option_family": {"option_sets": [{"name": n, "options": o, "rules_that_run": a} for n, o, a in OPTS], "layouts": len(oseqs), "scans": ostats["scans"], "documents_compared": ostats["documents"], "expected_unused_reports": ostats["expected_unused"],
+                              "rule": "every layout of <= 2 line tokens x 5 option sets that run part (or all) of the project's rules with `unused-suppression` switched on by an explicit severity option; same reference as above with the rules that run"},
         "evaluations": stats["documents"],
         "distinct_nontrivial": stats["expected_unused"],
         "rule": "CLI layer: one evaluation = one document of one layout scanned by `ast-grep scan --json=stream` in a project (sgconfig.yml, two rules with `ignores` globs) and compared with the reference set of (rule id, line) — findings no comment silences plus every comment that silenced nothing; layouts = every sequence of <= N line tokens (3 statements x {no comment, trailing, own-line before} x 3 id lists), each written to four files: all rules apply / one rule excluded / no rule applies / inside <script> of an html file whose host document has one comment of its own; distinct_nontrivial = unused-suppression reports expected",
